@@ -285,6 +285,11 @@ func ChildMain(p *Prop, tier string, seed uint64, from, to int) {
 			if w := lockedServerGoroutine(); w != "" && len(r.Violations) == 0 {
 				r.Inconclusive = ""
 				r.Violate("stall:connection-loop-parked-on-a-framework-lock", "no request makes the connection spin or stall; every other connection continues to be served", "the serving call did not return within the case watchdog, and a connection goroutine is parked on a lock inside the framework:\n"+w, r.Sample)
+			} else if w := spinningServerGoroutine(); w != "" && len(r.Violations) == 0 {
+				// ... and if a goroutine of the connection loop is found running (not waiting for anything) in three
+				// profiles taken 150 ms apart after the case has given up, it is busy without end: a spin.
+				r.Inconclusive = ""
+				r.Violate("spin:connection-loop-busy-after-the-case-gave-up", "no request makes the connection spin or stall; the connection's goroutine terminates", "the serving call did not return within the case watchdog, and the same connection goroutine was running in three goroutine profiles taken 150 ms apart:\n"+w, r.Sample)
 			}
 		}
 		emit(line{R: &r})
@@ -325,6 +330,51 @@ func lockedServerGoroutine() string {
 				return g
 			}
 			break
+		}
+	}
+	return ""
+}
+
+// spinningServerGoroutine: the stack of a connection-loop goroutine that is running or runnable in three consecutive
+// goroutine profiles (150 ms apart), "" if there is none.
+// SpinningServerGoroutine is spinningServerGoroutine for checks that want to look before they release the connection.
+func SpinningServerGoroutine() string { return spinningServerGoroutine() }
+
+func spinningServerGoroutine() string {
+	busy := map[string]int{}
+	last := map[string]string{}
+	for k := 0; k < 3; k++ {
+		if k > 0 {
+			time.Sleep(150 * time.Millisecond)
+		}
+		var buf bytes.Buffer
+		pprof.Lookup("goroutine").WriteTo(&buf, 2)
+		for _, g := range strings.Split(buf.String(), "\n\n") {
+			if !strings.Contains(g, "go-redis/redis.(*Server).receive(") {
+				continue
+			}
+			head := g
+			if i := strings.Index(g, "\n"); i > 0 {
+				head = g[:i]
+			}
+			if !(strings.Contains(head, "[running") || strings.Contains(head, "[runnable")) {
+				continue
+			}
+			id := strings.Fields(head)
+			if len(id) < 2 {
+				continue
+			}
+			busy[id[1]]++
+			last[id[1]] = g
+		}
+	}
+	for id, n := range busy {
+		if n == 3 {
+			g := last[id]
+			if len(g) > 1800 {
+				g = g[:1800]
+			}
+			return g
 		}
 	}
 	return ""
